@@ -114,8 +114,8 @@ def extLoop (cfg : Cfg) : Nat → Char → List Char → List Char → Bool × L
             | none => extLoop cfg fuel c' r2 index          -- StopIteration: pass
           else if c' = '[' then
             match sequence cfg r2 with
-            | some r3 => extLoop cfg fuel c' r3 r2          -- `index = i.index` stays overwritten
-            | none => extLoop cfg fuel c' r2 r2             -- rewind to the new index
+            | some r3 => extLoop cfg fuel c' r3 index       -- the bracket has its own rewind mark (fix: D35)
+            | none => extLoop cfg fuel c' r2 index          -- rewind to just after the `[`; the group's mark is kept
           else extLoop cfg fuel c' r2 index
 end
 
